@@ -284,3 +284,12 @@ Proof.
   exists proj_witness_a, proj_witness_b, (V3 1 0 0). destruct compose_projective_counterexample as [-> ->].
   intros H. injection H as H. lra.
 Qed.
+(* the same for vectors (w = 0) *)
+Lemma compose_left_to_right_vec_butlast ms p : Forall (affine ROps) (removelast ms) ->
+  mapply_vec ROps (compose_transforms ROps ms) p = fold_left (fun q m => mapply_vec ROps m q) ms p.
+Proof.
+  rewrite compose_cprod. induction ms as [|x l _] using rev_ind; [intros _; apply mapply_vec_I4|].
+  rewrite removelast_last. intros H. rewrite cprod_app, fold_left_app. cbn [fold_left cprod].
+  pose proof (cprod_affine l H) as (A0 & A1 & A2 & _).
+  rewrite mmul_I4_l, mapply_vec_mmul by assumption. f_equal. apply cprod_left_to_right_vec, H.
+Qed.
